@@ -5,7 +5,7 @@ from harness.lib import op
 
 ID = "C12"
 LEAN = {
-    "modules": ["GfaProofs.Bridge.Cigar", "GfaProofs.C12", "GfaProofs.Lemmas.CigarText"],
+    "modules": ["GfaProofs.Bridge.Cigar", "GfaProofs.Bridge.Geometry", "GfaProofs.C12", "GfaProofs.Lemmas.CigarText"],
     "support": ["GfaProofs.Lemmas.Digits", "GfaModel.Cigar", "GfaModel.CigarText"],
     "theorems": [
         "Gfa.C12.compl_compl", "Gfa.C12.refLen_compl", "Gfa.C12.queryLen_compl", "Gfa.C12.compl_length",
@@ -14,8 +14,8 @@ LEAN = {
         "Gfa.C12.isEql_iff", "Gfa.C12.canonical_or", "Gfa.C12.canonical_xor", "Gfa.C12.canon_canonical",
         "Gfa.C12.canon_eql", "Gfa.C12.compatible_either_form",
         "Gfa.Bridge.Cigar.flip_table", "Gfa.Bridge.Cigar.len_table", "Gfa.Bridge.Cigar.compl_reverses",
-        "Gfa.Bridge.Cigar.compl_pure", "Gfa.Bridge.Cigar.codes_complete", "Gfa.Bridge.Cigar.invert_table",
-        "Gfa.Bridge.Cigar.link_ends",
+        "Gfa.Bridge.Cigar.compl_pure", "Gfa.Bridge.Cigar.codes_complete", "Gfa.Bridge.Geometry.invert_table",
+        "Gfa.Bridge.Geometry.link_ends",
         "Gfa.cigar_parse_print", "Gfa.aln_parse_print",
     ],
 }
